@@ -25,7 +25,7 @@ def getStored (j : Json) : Except String Stored := do
   let fr ← (← getArr j "frames").toList.mapM getFrame
   pure { type := (← getSegType j), segNums := (← getNatList j "stored"), bitsStored := (← getNat j "bits"),
          mfv := (← getNat j "mfv"), bg := (← getNat j "bg"), npix := (← getNat j "npix"), frames := fr,
-         refs := (← getNatList j "refs") }
+         refs := (← getNatList j "refs"), frameSrcs := (← getNatList j "frame_srcs") }
 
 def getReq (j : Json) : Except String Req := do
   pure { keys := (← getNatList j "keys"), segs := (← getNatList j "segs"), combine := (← getBool j "combine"),
